@@ -202,14 +202,14 @@ Visible(t, n) == tabs[t].store[n] # 0 /\ (t < Cur \/ syms[tabs[t].store[n]].scop
 Denotes(n) == IF \E t \in 1..Cur : Visible(t, n)
               THEN Ultimate(tabs, syms, tabs[CHOOSE t \in 1..Cur : Visible(t, n) /\ \A u \in (t + 1)..Cur : ~Visible(u, n)].store[n])
               ELSE 0
-Lexical ==
-  \A n \in NameSet :
+LexicalOn(N) ==
+  \A n \in N :
      LET r == ResolveR(tabs, syms, Cur, n, FALSE) IN
        /\ r.ok = (Denotes(n) # 0)
        /\ r.ok => Ultimate(r.T, r.S, r.sid) = Denotes(n)
 (* and how it is reached: directly when no function boundary lies between, through a closure cell otherwise *)
-Reach ==
-  \A n \in NameSet :
+ReachOn(N) ==
+  \A n \in N :
      LET r == ResolveR(tabs, syms, Cur, n, FALSE) IN
        r.ok => LET u == r.S[Ultimate(r.T, r.S, r.sid)] IN
                IF u.scope \in {"GLOBAL", "BUILTIN"} \/ FuncOf(tabs, u.tab) = FuncOf(tabs, Cur)
@@ -217,9 +217,13 @@ Reach ==
                ELSE r.S[r.sid].scope = "FREE" /\ r.S[r.sid].tab = FuncOf(tabs, Cur)   \* a cell of the function being compiled, not of an outer one
 
 (* resolving is idempotent: the second lookup of a name finds the same symbol and changes nothing more *)
-ResolveStable ==
-  \A n \in NameSet :
+ResolveStableOn(N) ==
+  \A n \in N :
      LET r == ResolveR(tabs, syms, Cur, n, FALSE) IN
        r.ok => LET q == ResolveR(r.T, r.S, Cur, n, FALSE) IN q.sid = r.sid /\ q.T = r.T /\ q.S = r.S
+
+Lexical == LexicalOn(NameSet)
+Reach == ReachOn(NameSet)
+ResolveStable == ResolveStableOn(NameSet)
 
 =============================================================================
